@@ -13,8 +13,9 @@ PROP = 'C04'
 
 SIZES = [0, 1, 4096, 65537, 2 * 1024 * 1024]
 BEHAVIOURS = ['stdout', 'd3', 'neither', 'both', 'write1', 'write1_d3', 'del3', 'fail_clean', 'partial_fail_stdout',
-              'partial_fail_d3', 'kill_TERM', 'kill_KILL', 'd3_then_fail']
-PRIORS = ['absent', 'generated_stdout', 'generated_d3', 'generated_removed', 'user', 'absent+staletmp', 'generated_d3+staletmp']
+              'partial_fail_d3', 'kill_TERM', 'kill_KILL', 'd3_then_fail', 'symlink3_fail', 'symlink3_ok']
+PRIORS = ['absent', 'generated_stdout', 'generated_d3', 'generated_removed', 'user', 'absent+staletmp', 'generated_d3+staletmp',
+          'absent+staletmplink', 'generated_stdout+staletmplink']
 
 
 def gen_bytes(ch, size):
@@ -62,6 +63,12 @@ def script_for(beh, size, slow):
         body = emit_cmd('n', max(1, size // 2), '$3') + '\nexit 3'
     elif beh == 'd3_then_fail':
         body = e('$3') + '\nexit 4'
+    elif beh == 'symlink3_fail':
+        # the output is made a symbolic link to something that is not there (yet), then the script fails
+        body = 'ln -s "$1.v1.2.does-not-exist" "$3"\nexit 6'
+    elif beh == 'symlink3_ok':
+        # the output is a symbolic link to a data file the script made
+        body = emit_cmd('n', size, '$1.data') + '\nln -s "$1.data" "$3"'
     elif beh.startswith('kill_'):
         body = emit_cmd('n', max(1, size // 2), '$3') + '\nkill -s %s $$\nsleep 5' % beh.split('_')[1]
     else:
@@ -91,6 +98,10 @@ def expected(beh, size, prior, old):
         return False, old, r'exit 4'
     if beh.startswith('kill_'):
         return False, old, None
+    if beh == 'symlink3_fail':
+        return False, old, r'exit 6'
+    if beh == 'symlink3_ok':
+        return True, gen_bytes('n', size), None
     raise ValueError(beh)
 
 
@@ -142,6 +153,7 @@ def case(item):
         old = None
         # ---- prior state
         stale = prior.endswith('+staletmp')
+        stalelink = prior.endswith('+staletmplink')
         prior = prior.split('+')[0]
         if prior.startswith('generated'):
             ch = 'stdout' if prior == 'generated_stdout' else 'd3'
@@ -159,6 +171,11 @@ def case(item):
         if stale:
             # what a run killed in the middle of a build leaves behind: a half-written $3
             common.write_file(os.path.join(top, 't.redo.tmp'), b'STALE-HALF-WRITTEN-OUTPUT\n')
+        if stalelink:
+            # ... or a $3 that a killed script had made a symbolic link whose destination never came to exist
+            os.symlink('t.v0.9.never-written', os.path.join(top, 't.redo.tmp'))
+        if beh == 'symlink3_ok' and os.path.lexists(os.path.join(top, 't.data')):
+            os.unlink(os.path.join(top, 't.data'))
         common.write_file(os.path.join(top, 't.do'), script_for(beh, size, slow))
         os.utime(os.path.join(top, 't.do'), ns=(10 ** 18, 10 ** 18))
         want_ok, want_bytes, want_text = expected(beh, size, prior, old)
